@@ -157,6 +157,7 @@ def option_is(ex, st, callee, args, m):
 def option_unwrap_or(ex, st, callee, args, m):
     """Option::unwrap_or on scalars"""
     o, d = args
+    if not o.fields.get('Some'): return d          # a value built as `None` carries no payload
     v = o.fields['Some'][0]
     if isinstance(v, Opaque): return d
     if z3.is_expr(v) and z3.is_expr(d): return If(o.disc == 1, v, d)
@@ -239,7 +240,10 @@ def f64_misc(ex, st, callee, args, m):
     if f == 'is_sign_positive': return Not(z3.fpIsNegative(a))
     if f == 'fract': return fpSub(_RNE, a, z3.fpRoundToIntegral(z3.RTZ(), a))       # self - self.trunc()
     if f == 'signum': return If(fpIsNaN(a), a, If(z3.fpIsNegative(a), z3.FPVal(-1.0, F64), z3.FPVal(1.0, F64)))
-    if f == 'to_bits': return z3.fpToIEEEBV(a)
+    if f == 'to_bits':
+        # z3's FP sort has a single NaN; a float introduced as `to_fp(bits)` keeps its bit pattern (NaN sign/payload) through to_bits
+        if z3.is_app(a) and a.decl().kind() == z3.Z3_OP_FPA_TO_FP and a.num_args() == 1 and is_bv(a.arg(0)): return a.arg(0)
+        return z3.fpToIEEEBV(a)
     if f == 'from_bits': return z3.fpBVToFP(a, F64)
     if f == 'clamp':
         lo, hi = args[1], args[2]
